@@ -926,6 +926,12 @@ func ParentMain(opt Options) int {
 		_ = os.MkdirAll(filepath.Join(outDir, "evidence"), 0o755)
 		_ = os.WriteFile(filepath.Join(outDir, "evidence", opt.PropID+".json"), b, 0o644)
 	}
+	if os.Getenv("VERIF_DEBUG_TIMES") != "" {
+		sort.Slice(all.results, func(i, j int) bool { return all.results[i].WallMS > all.results[j].WallMS })
+		for i := 0; i < 5 && i < len(all.results); i++ {
+			fmt.Printf("SLOW %s %dms\n", all.results[i].CaseID, all.results[i].WallMS)
+		}
+	}
 	fmt.Printf("SUMMARY property=%s tier=%s seed=%d cases=%d verdicts=%v distinct_nontrivial=%d violations=%d known=%d wall=%.1fs\n",
 		opt.PropID, opt.Tier, opt.Seed, len(all.results), verdicts, len(fps), nViol, len(knownHit), wall)
 	return exit
